@@ -437,6 +437,181 @@ class YearOneRatio(Contract):
         return {"year_one_ratio_is_the_documented_function": res == want, "ratio_non_negative": res >= 0}
 
 
+# ---- the assembling methods of Parameters: what is handed to the optimiser is what the supply classes computed ----
+
+def _wiring_summaries(log, S):
+    """Constructors / methods of the supply classes replaced by recorders: each call is logged with the arguments it
+    got, series-producing methods set a fresh marker series on the object."""
+    from pyvc.values import Obj as _Obj
+
+    def ctor(name, attrs):
+        def f(interp, ctx, fv, args, kwargs):
+            log.append((name + ".__init__", args[1:]))
+            for a_ in attrs:
+                args[0].attrs[a_] = unwrap(S.real(f"{name}_{a_}"))
+            return None
+        return f
+
+    def method(name, sets=None, ret=None):
+        def f(interp, ctx, fv, args, kwargs):
+            log.append((name, args[1:]))
+            if sets:
+                args[0].attrs[sets] = ("MARKER", name, len(log))
+            if ret:
+                return ("MARKER", name, len(log))
+            return None
+        return f
+
+    return {
+        (SF, "Seafood.__init__"): ctor("Seafood", []), (SF, "Seafood.set_seafood_production"): method("Seafood.set_seafood_production", sets="to_humans"),
+        (SCP, "MethaneSCP.__init__"): ctor("MethaneSCP", ["SCP_KCALS_TO_FAT_CONVERSION", "SCP_KCALS_TO_PROTEIN_CONVERSION", "SCP_WASTE_RETAIL"]),
+        (SCP, "MethaneSCP.calculate_monthly_scp_caloric_production"): method("MethaneSCP.calculate_monthly_scp_caloric_production", sets="production"),
+        (SCP, "MethaneSCP.calculate_scp_fat_and_protein_production"): method("MethaneSCP.calculate_scp_fat_and_protein_production"),
+        (CS, "CellulosicSugar.__init__"): ctor("CellulosicSugar", ["SUGAR_WASTE_RETAIL"]),
+        (CS, "CellulosicSugar.calculate_monthly_cs_production"): method("CellulosicSugar.calculate_monthly_cs_production", sets="production"),
+        (ST, "StoredFood.__init__"): ctor("StoredFood", ["SF_FRACTION_FAT", "SF_FRACTION_PROTEIN"]),
+        (ST, "StoredFood.calculate_stored_food_to_use"): method("StoredFood.calculate_stored_food_to_use", sets="initial_available"),
+        (SW, "Seaweed.__init__"): ctor("Seaweed", ["INITIAL_SEAWEED", "SEAWEED_KCALS", "HARVEST_LOSS", "SEAWEED_WASTE_RETAIL", "SEAWEED_FAT", "SEAWEED_PROTEIN",
+                                                  "MINIMUM_DENSITY", "MAXIMUM_DENSITY", "MAXIMUM_SEAWEED_AREA", "INITIAL_BUILT_SEAWEED_AREA",
+                                                  "MAX_SEAWEED_AS_PERCENT_KCALS_FEED", "MAX_SEAWEED_AS_PERCENT_KCALS_BIOFUEL", "MAX_SEAWEED_AS_PERCENT_KCALS_HUMANS"]),
+        (SW, "Seaweed.get_built_area"): method("Seaweed.get_built_area", ret=True),
+        (SW, "Seaweed.get_growth_rates"): method("Seaweed.get_growth_rates", ret=True),
+    }
+
+
+class Wiring(Contract):
+    """Parameters.init_fish_params / init_scp_params / init_cs_params / init_stored_food / set_seaweed_params: the
+    series and constants handed on are exactly the ones the supply class computed from THIS run's inputs (the classes
+    themselves are under the contracts above and enter here as recorders)."""
+    prop = "C08"
+    file = PARAMS
+    replayable = False
+    np_floats = True
+
+    def __init__(self, which, flag=True):
+        self.which, self.flag = which, flag
+        self.func = "Parameters." + which
+        self.name = which + ("" if flag else "[stored food excluded]")
+
+    def inputs(self, S):
+        S.set_conversions(S.real("kd"), S.real("fd"), S.real("pd"), False, False, S.real("pop"))
+        self.log = []
+        self.summaries = _wiring_summaries(self.log, S)
+        params = S.obj(PARAMS, "Parameters", SIMULATION_STARTING_MONTH_NUM=5)
+        ci = S.opendict("constants_inputs", {"NMONTHS": 48, "WASTE_RETAIL": unwrap(S.real("WASTE_RETAIL"))}, closed=True)
+        tci = {"marker": "time_consts_inputs"}
+        oc = ("MARKER", "outdoor_crops", 0)
+        w = self.which
+        if w == "init_fish_params":
+            args = [params, {}, ci, tci]
+        elif w in ("init_scp_params", "init_cs_params"):
+            args = [params, {}, {}, ci]
+        elif w == "init_stored_food":
+            args = [params, {"ADD_STORED_FOOD": self.flag}, ci, oc]
+        else:
+            args = [params, {}, ci]
+        return dict(args=args, ci=ci, tci=tci, oc=oc)
+
+    def ensures(self, S, a, res):
+        r, log, w = unwrap(res), self.log, self.which
+        names = [n for n, _ in log]
+        ci = unwrap(a["ci"])
+        if w == "init_fish_params":
+            ok = names == ["Seafood.__init__", "Seafood.set_seafood_production"] and log[0][1] == [ci] and log[1][1] == [a["tci"]] \
+                and isinstance(r["fish"], Obj) and r["fish"].attrs.get("to_humans") == ("MARKER", "Seafood.set_seafood_production", 2)
+        elif w == "init_scp_params":
+            ok = names == ["MethaneSCP.__init__", "MethaneSCP.calculate_monthly_scp_caloric_production", "MethaneSCP.calculate_scp_fat_and_protein_production"] \
+                and log[0][1] == [ci] and log[1][1] == [ci] and r[1]["methane_scp"] == ("MARKER", "MethaneSCP.calculate_monthly_scp_caloric_production", 2) \
+                and r[0]["SCP_RETAIL_WASTE"] is r[2].attrs["SCP_WASTE_RETAIL"] and r[0]["SCP_KCALS_TO_FAT_CONVERSION"] is r[2].attrs["SCP_KCALS_TO_FAT_CONVERSION"] \
+                and r[0]["SCP_KCALS_TO_PROTEIN_CONVERSION"] is r[2].attrs["SCP_KCALS_TO_PROTEIN_CONVERSION"]
+        elif w == "init_cs_params":
+            ok = names == ["CellulosicSugar.__init__", "CellulosicSugar.calculate_monthly_cs_production"] and log[0][1] == [ci] and log[1][1] == [ci] \
+                and r[1]["cellulosic_sugar"] == ("MARKER", "CellulosicSugar.calculate_monthly_cs_production", 2) \
+                and r[0]["CELL_SUGAR_RETAIL_WASTE"] is r[2].attrs["SUGAR_WASTE_RETAIL"]
+        elif w == "init_stored_food":
+            sf = r[1]
+            base = names[:1] == ["StoredFood.__init__"] and log[0][1] == [ci, a["oc"]] and r[0]["stored_food"] is sf \
+                and r[0]["SF_FRACTION_FAT"] is sf.attrs["SF_FRACTION_FAT"] and r[0]["SF_FRACTION_PROTEIN"] is sf.attrs["SF_FRACTION_PROTEIN"] \
+                and r[0]["STORED_FOOD_WASTE_RETAIL"] is ci.entries["WASTE_RETAIL"]
+            if self.flag:
+                ok = base and names == ["StoredFood.__init__", "StoredFood.calculate_stored_food_to_use"] and log[1][1] == [5] \
+                    and sf.attrs["initial_available"] == ("MARKER", "StoredFood.calculate_stored_food_to_use", 2)
+            else:
+                ia = sf.attrs.get("initial_available")
+                ok = base and names == ["StoredFood.__init__"] and isinstance(ia, Obj) and length(V(ia).kcals) == 48
+                zero = And(*[x == 0 for x in seq(V(ia).kcals, 48)]) if ok else V(False)
+                return {"hands_on_exactly_what_the_supply_class_computed": And(V(ok), zero)}
+        else:
+            sw = r[3]
+            ok = names == ["Seaweed.__init__", "Seaweed.get_built_area", "Seaweed.get_growth_rates"] and all(x[1] == [ci] for x in log) \
+                and r[1] == ("MARKER", "Seaweed.get_built_area", 2) and r[2] == ("MARKER", "Seaweed.get_growth_rates", 3) \
+                and all(r[0][k] is sw.attrs[k] for k in sw.attrs) and len(sw.attrs) == 13 and set(r[0].keys()) == set(sw.attrs.keys())
+        return {"hands_on_exactly_what_the_supply_class_computed": V(bool(ok))}
+
+
+class FirstRoundAssembly(Contract):
+    """Parameters.compute_parameters_first_round: every supply series / constant block lands in the dictionary handed
+    to the optimiser under its own key, each initialiser gets THIS run's inputs (and the crop object where it needs
+    it), and the caller receives the schedules and herd object of the meat / feed initialiser (recorders stand in for
+    the initialisers, which have their own contracts)."""
+    prop = "C08"
+    file = PARAMS
+    func = "Parameters.compute_parameters_first_round"
+    name = "assembly"
+    replayable = False
+    np_floats = True
+
+    def inputs(self, S):
+        S.set_conversions(S.real("kd"), S.real("fd"), S.real("pd"), False, False, S.real("pop"))
+        self.log = log = []
+        M = lambda *x: ("MARKER",) + x
+
+        def rec(name, build):
+            def f(interp, ctx, fv, args, kwargs):
+                log.append((name, args[1:]))
+                return build(args)
+            return f
+
+        self.summaries = {
+            (PARAMS, "Parameters.init_scenario"): rec("init_scenario", lambda a: {"scenario": True}),
+            (PARAMS, "Parameters.set_nutrition_per_month"): rec("set_nutrition_per_month", lambda a: a[1]),
+            (PARAMS, "Parameters.set_seaweed_params"): rec("set_seaweed_params", lambda a: (a[1], M("built_area"), M("growth"), M("seaweed"))),
+            (PARAMS, "Parameters.init_fish_params"): rec("init_fish_params", lambda a: dict(a[1], fish=M("fish"))),
+            (PARAMS, "Parameters.init_scp_params"): rec("init_scp_params", lambda a: (a[1], dict(a[2], methane_scp=M("scp")), M("scp_obj"))),
+            (PARAMS, "Parameters.init_cs_params"): rec("init_cs_params", lambda a: (a[1], dict(a[2], cellulosic_sugar=M("cs")), M("cs_obj"))),
+            (PARAMS, "Parameters.init_outdoor_crops"): rec("init_outdoor_crops", lambda a: (a[1], M("outdoor_crops_obj"))),
+            (PARAMS, "Parameters.init_greenhouse_params"): rec("init_greenhouse_params", lambda a: dict(a[1], greenhouse=M("gh"))),
+            (PARAMS, "Parameters.init_stored_food"): rec("init_stored_food", lambda a: (dict(a[1], stored_food=M("sf")), M("sf_obj"))),
+            (PARAMS, "Parameters.init_meat_and_dairy_and_feed_from_breeding_and_subtract_feed_biofuels_round1"): rec(
+                "init_meat", lambda a: (dict(a[1], meat=True), dict(a[3], meat=M("meat")), M("fb"), M("biofuels_demand"), M("feed_demand"), M("meat_dict"), M("herds"))),
+        }
+        loader = S.obj("src/scenarios/scenarios.py", "Scenarios")
+        self.summaries[("src/scenarios/scenarios.py", "Scenarios.check_all_set")] = rec("check_all_set", lambda a: None)
+        ci = S.opendict("constants_inputs", {"NMONTHS": 48}, closed=True)
+        tci = {"marker": "time_consts_inputs"}
+        return dict(args=[S.call(PARAMS, "Parameters"), ci, tci, loader], ci=ci, tci=tci)
+
+    def ensures(self, S, a, res):
+        r, log = unwrap(res), self.log
+        ci, tci = unwrap(a["ci"]), a["tci"]
+        M = lambda *x: ("MARKER",) + x
+        by = {n: args for n, args in log}
+        consts, tc = r[0], r[1]
+        ok = (len(r) == 7 and [n for n, _ in log][:3] == ["check_all_set", "init_scenario", "set_nutrition_per_month"]
+              and tc.get("built_area") == M("built_area") and tc.get("growth_rates_monthly") == M("growth")
+              and tc.get("fish") == M("fish") and tc.get("methane_scp") == M("scp") and tc.get("cellulosic_sugar") == M("cs")
+              and tc.get("greenhouse") == M("gh") and tc.get("meat") == M("meat")
+              and consts.get("stored_food") == M("sf") and consts.get("inputs") is ci
+              and r[2] == M("fb") and r[3] == M("biofuels_demand") and r[4] == M("feed_demand") and r[5] == M("meat_dict") and r[6] == M("herds"))
+        inputs_ok = (all(ci in [x for x in by[n]] for n in ("init_scenario", "set_nutrition_per_month", "set_seaweed_params", "init_fish_params",
+                                                            "init_scp_params", "init_cs_params", "init_outdoor_crops", "init_greenhouse_params",
+                                                            "init_stored_food", "init_meat") if n in by) and len(by) == 11
+                     and tci in by["init_fish_params"] and M("outdoor_crops_obj") in by["init_greenhouse_params"]
+                     and M("outdoor_crops_obj") in by["init_stored_food"])
+        return {"each_series_under_its_own_key_and_results_handed_back_in_order": V(bool(ok)),
+                "each_initialiser_gets_this_runs_inputs": V(bool(inputs_ok))}
+
+
 def _mk():
     cs = []
     for N in HORIZONS:
@@ -460,6 +635,10 @@ def _mk():
             cs.append(DemandSchedules(N, fm, bm))
     for iso3 in ("ZAF", "JPN", "PRK", "KOR", "USA", "WOR"):
         cs.append(YearOneRatio(iso3))
+    for w in ("init_fish_params", "init_scp_params", "init_cs_params", "init_stored_food", "set_seaweed_params"):
+        cs.append(Wiring(w))
+    cs.append(Wiring("init_stored_food", flag=False))
+    cs.append(FirstRoundAssembly())
     return cs
 
 
